@@ -676,7 +676,11 @@ class ADEV(Pytree):
                         # This is a JAX implementation detail that may change in future versions.
                         return jax.lax.cond(
                             Dual.tree_primal(in_vals[0]),
-                            *it.chain(reversed(branch_adev_functions), in_vals[1:]),
+                            *it.chain(
+                                reversed(branch_adev_functions),
+                                # a constant operand is read as a raw literal
+                                Dual.tree_pure(in_vals[1:]),
+                            ),
                         )
 
                     # Default JVP rule for other JAX primitives.
